@@ -12,16 +12,24 @@ import (
 // C08 - a registering plugin learns of each container exactly once; sync blocks hold it.
 
 type C08W struct {
-	Early    int   `json:"early"`    // plugins registered before any creation
-	Late     int   `json:"late"`     // plugins registering while creations run
-	Creators []int `json:"creators"` // containers created by each runtime goroutine
-	Pre      int   `json:"pre"`      // containers already in the store
+	Early    int   `json:"early"`               // plugins registered before any creation
+	Late     int   `json:"late"`                // plugins registering while creations run
+	Creators []int `json:"creators"`            // containers created by each runtime goroutine
+	Pre      int   `json:"pre"`                 // containers already in the store
+	FailSync []int `json:"fail_sync,omitempty"` // late plugins (by position) whose Synchronize handler fails: their registration must fail cleanly
 }
 
 func c08Gen(rng *rand.Rand, conf string, idx int) any {
 	w := &C08W{Early: rng.Intn(2), Late: 1 + rng.Intn(4), Pre: rng.Intn(3)}
 	for k, n := 0, 1+rng.Intn(3); k < n; k++ {
 		w.Creators = append(w.Creators, 1+rng.Intn(4))
+	}
+	if rng.Intn(3) == 0 {
+		for k := 0; k < w.Late; k++ {
+			if rng.Intn(3) == 0 {
+				w.FailSync = append(w.FailSync, k)
+			}
+		}
 	}
 	return w
 }
@@ -59,6 +67,18 @@ func c08Run(t *testing.T, wl any, sc SchedCfg) *Result {
 		if err := e.RunUntil(200000, func() bool { return e.TasksDone() && h.L.AcceptCount() >= w.Early+1 }); err != nil {
 			res.Violate("C08.setup", "early registration: %v", err)
 			return
+		}
+		failing := map[string]bool{}
+		for _, k := range w.FailSync {
+			if k < w.Late {
+				failing[names[w.Early+k]] = true
+			}
+		}
+		h.Script = func(plugin, rpc, token string) *Reply {
+			if rpc == "Synchronize" && failing[plugin] {
+				return &Reply{Err: "plugin " + plugin + " cannot synchronize"}
+			}
+			return nil
 		}
 		for k := 0; k < w.Late; k++ {
 			p := h.AddPlugin(names[w.Early+k], fmt.Sprintf("%02d", 5+10*k), 0)
@@ -139,6 +159,14 @@ func c08Run(t *testing.T, wl any, sc SchedCfg) *Result {
 					marker = true
 				}
 			}
+			if failing[p.Name] {
+				// its synchronization failed: it must not become active, and must not hold anything up
+				res.Probe("C08.failed-synchronization")
+				if marker || len(got) > 0 {
+					res.Violate("C08.failed-sync-not-activated", "plugin %s failed its synchronization but received %d creation requests (marker: %v)", p.Name, len(got), marker)
+				}
+				continue
+			}
 			if synced != 1 {
 				res.Violate("C08.synchronized-once", "plugin %s was synchronized %d times", p.Name, synced)
 				continue
@@ -191,6 +219,11 @@ func c08Shrink(wl any) []any {
 	if w.Pre > 0 {
 		c := jsonClone(w)
 		c.Pre = 0
+		out = append(out, c)
+	}
+	if len(w.FailSync) > 0 {
+		c := jsonClone(w)
+		c.FailSync = nil
 		out = append(out, c)
 	}
 	if w.Late > 1 {
